@@ -121,7 +121,7 @@ def gen_doc(rng):
         t = tf() if rng.random() < 0.4 else ''
         d = ' display="none"' if rng.random() < 0.07 else ''
         x, y = rng.randint(0, 12), rng.randint(0, 12)
-        if k == 0: return f'<rect x="{x}" y="{y}" width="{rng.randint(3, 8)}" height="{rng.randint(3, 8)}"' + (f' rx="{rng.choice([1, 2])}"' if rng.random() < 0.3 else '') + f' fill="{c}"{t}{d}/>'
+        if k == 0: return f'<rect x="{x}" y="{y}" width="{rng.randint(3, 8)}" height="{rng.randint(3, 8)}"' + (rng.choice([f' rx="{rng.choice([1, 2])}"', f' rx="{rng.choice([5, 6])}"', f' rx="5" ry="{rng.choice([4, 6])}"', f' ry="{rng.choice([5, 1])}"']) if rng.random() < 0.4 else '') + f' fill="{c}"{t}{d}/>'
         if k == 1: return f'<circle cx="{x + 3}" cy="{y + 3}" r="{rng.randint(2, 4)}" fill="{c}"{t}{d}/>'
         if k == 2: return f'<ellipse cx="{x + 3}" cy="{y + 3}" rx="{rng.randint(2, 5)}" ry="{rng.randint(1, 3)}" fill="{c}"{t}{d}/>'
         if k == 3: return f'<polygon points="{x},{y} {x + 6},{y + 1} {x + 2},{y + 7}" fill="{c}"{t}{d}/>'
